@@ -30,6 +30,15 @@ Allowed == {<<"ok", "ok">>, <<"diag", "na">>, <<"notimpl", "na">>}
 \* Dev_GeneratedIdentifierCollision (recorded finding): a spec name whose Go identifier is one the
 \* templates declare themselves is neither renamed nor refused.  The deviation is identified by
 \* the exact witness names per naming scope; any other colliding name is still a violation.
+\* Two more recorded findings are identified by the witness document (a harness shape):
+\*   Dev_WebhookSecurityMethods       a webhook operation with a security requirement: the
+\*                                    security methods exist only on *Server / *Client
+\*   Dev_PatternResponsesSameSchema   4XX and 5XX responses with the same $ref schema: one
+\*                                    wrapper type, two cases in the encoder's type switch
+ShapeWitness(shape) ==
+  CASE shape = "webhook_security" -> {"Dev_WebhookSecurityMethods"}
+    [] shape = "pattern_responses_same_schema" -> {"Dev_PatternResponsesSameSchema"}
+    [] OTHER -> {}
 CollisionWitness(scope) ==
   CASE scope \in {"schema", "security"} -> {"Client", "Handler", "OperationName", "Route", "Server"}
     [] scope = "property" -> {"Decode", "Encode"}
